@@ -5,6 +5,7 @@ package standard
 import (
 	"context"
 	"errors"
+	eth2client "github.com/attestantio/go-eth2-client"
 	"time"
 
 	"github.com/attestantio/go-block-relay/services/blockauctioneer"
@@ -112,6 +113,22 @@ func (p *c05Proposals) Proposal(_ context.Context, opts *api.ProposalOpts) (*api
 	return &api.Response[*api.VersionedProposal]{Data: p.proposal, Metadata: map[string]any{}}, nil
 }
 
+// c05ProposalsWithClient is a proposal provider that can also name its node's client (a single beacon
+// node does; the strategies do not): the "{{CLIENT}}" token of a graffiti is filled in from it.
+type c05ProposalsWithClient struct {
+	*c05Proposals
+	fail  bool
+	calls int
+}
+
+func (p *c05ProposalsWithClient) NodeClient(_ context.Context) (*api.Response[string], error) {
+	p.calls++
+	if p.fail {
+		return nil, errors.New("mock node client failure")
+	}
+	return &api.Response[string]{Data: "lh", Metadata: map[string]any{}}, nil
+}
+
 type c05SignCall struct {
 	account    e2wtypes.Account
 	slot       phase0.Slot
@@ -195,6 +212,7 @@ type c05Env struct {
 	graf    *c05Graffiti
 	auc     *c05Auctioneer
 	props   *c05Proposals
+	client  *c05ProposalsWithClient // when set, the proposal provider handed to the service
 	signer  *c05Signer
 	sub     *c05Submitter
 	relays  []*c05Relay
@@ -229,7 +247,7 @@ func c05New(params ...Parameter) *Service {
 func (e *c05Env) build() {
 	params := []Parameter{
 		WithChainTime(e.ct),
-		WithProposalDataProvider(e.props),
+		WithProposalDataProvider(e.proposalProvider()),
 		WithExecutionChainHeadProvider(&c05Head{}),
 		WithProposalSubmitter(e.sub),
 		WithBeaconBlockSigner(e.signer),
@@ -246,6 +264,13 @@ func (e *c05Env) build() {
 		params = append(params, WithGraffitiProvider(e.graf))
 	}
 	e.s = c05New(params...)
+}
+
+func (e *c05Env) proposalProvider() eth2client.ProposalProvider {
+	if e.client != nil {
+		return e.client
+	}
+	return e.props
 }
 
 func newC05Env(nrelays int, auctionMode int) *c05Env {
@@ -356,12 +381,17 @@ func c05Run(e *c05Env) {
 	case 3:
 		e.sub.fail = true
 	}
-	graffitiMode := vnd.Choose("graffiti.mode", 3)
+	graffitiMode := vnd.Choose("graffiti.mode", 5)
 	switch graffitiMode {
 	case 1:
 		e.graf = &c05Graffiti{fail: true}
 	case 2:
 		e.graf = &c05Graffiti{data: []byte("hello")}
+	case 3, 4:
+		// graffiti naming the node's client, with a proposal provider that can be asked for it: the
+		// lookup works (3) or fails (4)
+		e.graf = &c05Graffiti{data: []byte("{{CLIENT}} x")}
+		e.client = &c05ProposalsWithClient{c05Proposals: e.props, fail: graffitiMode == 4}
 	}
 	e.build()
 	// the job context: Propose is given a deadline so that the run ends even
@@ -382,6 +412,13 @@ func c05Run(e *c05Env) {
 		}
 		if graffitiMode == 2 {
 			vnd.Assert(o.Graffiti[0] == 'h' && o.Graffiti[4] == 'o' && o.Graffiti[5] == 0, "C05.graffiti-passed-on")
+		}
+		if graffitiMode == 3 {
+			vnd.Assert(string(o.Graffiti[:5]) == "lh x\x00", "C05.graffiti-client-token-filled-in")
+		}
+		if graffitiMode == 4 {
+			// a failed client lookup costs the token's replacement, never the proposal (asserted above)
+			vnd.Cover("C05.graffiti-client-lookup-failed")
 		}
 	} else {
 		vnd.Assert(len(e.props.opts) == 0 && len(e.signer.calls) == 0 && len(e.sub.calls) == 0, "C05.no-reveal-no-proposal")
